@@ -350,6 +350,8 @@ func runGenerated(rt *rapid.T, ro runOpts, orc oracle) (*hcase, *vh.Failure, []s
 	gopt := ro.gen
 	gopt.Commands = commandNames()
 	gopt.InitialConfig = &def
+	// ids as a real network has them (robust.MessageOffset + raft index) in two of three cases
+	gopt.StartID = rapid.SampledFrom([]uint64{0, 4648398125000000000, 4648398125000000000 + 1<<33}).Draw(rt, "id_base")
 	g := ircgen.New(gopt)
 	n := rapid.IntRange(ro.minLen, ro.maxLen).Draw(rt, "history_len")
 	orc.begin(i, c, rt)
